@@ -1,4 +1,5 @@
 //! Verification harness for chrono: runtime monitors + reference oracles.
+pub mod allocmon;
 pub mod gen;
 pub mod mon;
 pub mod props;
@@ -6,3 +7,6 @@ pub mod refcal;
 pub mod refinst;
 pub mod reftz;
 pub mod rng;
+
+#[global_allocator]
+static GLOBAL: allocmon::CountingAlloc = allocmon::CountingAlloc;
